@@ -51,7 +51,8 @@ class SymAPI(object):
         but one solver query when all of them hold (the usual case)."""
         pairs = list(pairs)
         allc = self.all([c for c, l in pairs])
-        if isinstance(allc, SymBool) and len(pairs) > 1:
+        if isinstance(allc, SymBool) and len(pairs) > 1 and \
+                len(self.ctx.trail) >= len(self.ctx.prefix):
             if not self.ctx._check(z3.Not(allc.e)):
                 self.ctx.stats['checks'] += len(pairs)
                 self.ctx.stats['discharged'] += len(pairs)
